@@ -168,3 +168,63 @@ def special_C10(seed, tier, model, deadline):
             f = min(fs, key=lambda x: x['idx'])
             fails.append({'seed': seed, 'k': 'limit-%d' % k, 'failure': f, 'ops': ops[:f['idx'] + 1]})
     return {'failures': fails, 'mismatches': mism, 'coverage': {'limit_pressure_programs': progs, 'limit_pressure_ops': nops}}
+
+
+def special_C22(seed, tier, model, deadline):
+    """push pressure on a client: ENABLE_PUSH on or off (acknowledged or still in flight), parents that are open, ended,
+    reset locally / by the peer, purged from the table or never opened, promised ids of every kind"""
+    import random
+    import time
+    import wire
+    from corr import replay
+    from oracles import oracle_C22
+    import checklib as L
+    REQ = [(b':method', b'GET', False), (b':scheme', b'https', False), (b':path', b'/', False), (b':authority', b'x', False)]
+    RESP = [(b':status', b'200', False)]
+    blk = wire.hpack_literal_block
+    n = {'quick': 120, 'thorough': 2500}.get(tier, 120)
+    fails, mism, progs, nops = [], [], 0, 0
+    for k in range(n):
+        if time.time() > deadline:
+            break
+        rng = random.Random((seed * 52361 + k) & 0xFFFFFFFF)
+        ops = [{'op': 'new', 'c': 0, 'client': True, 'vo': 1, 'no': 1, 'vi': 1, 'ni': 1, 'enc': None},
+               {'op': 'initiate_connection', 'c': 0},
+               {'op': 'recv', 'c': 0, 'data': wire.settings_frame([]) + wire.settings_frame(ack=True)}]
+        if rng.random() < 0.6:
+            ops.append({'op': 'update_settings', 'c': 0, 'settings': [(2, 0)]})
+            if rng.random() < 0.8:
+                ops.append({'op': 'recv', 'c': 0, 'data': wire.settings_frame(ack=True)})
+        nxt, mine, promised_next = 1, [], 2
+        for _ in range(rng.randrange(5, 16)):
+            r = rng.random()
+            if r < 0.3 or not mine:
+                ops.append({'op': 'send_headers', 'c': 0, 'sid': nxt, 'headers': REQ, 'es': rng.random() < 0.6})
+                mine.append(nxt)
+                nxt += 2
+            elif r < 0.45:
+                ops.append({'op': 'reset_stream', 'c': 0, 'sid': rng.choice(mine), 'code': 8})
+            elif r < 0.55:
+                sid = rng.choice(mine)
+                ops.append({'op': 'recv', 'c': 0, 'data': rng.choice([wire.rst_stream(sid, 2), wire.headers_frames(sid, blk(RESP), end_stream=True)])})
+            elif r < 0.9:
+                parent = rng.choice(mine + [rng.choice(mine)] * 2 + [nxt, 2, promised_next - 2 if promised_next > 2 else 4])
+                pid = promised_next if rng.random() < 0.85 else rng.choice([0, 1, 2, promised_next + 1, 2**31])
+                ops.append({'op': 'recv', 'c': 0, 'data': wire.push_promise_frames(parent, pid, blk(REQ))})
+                if pid == promised_next:
+                    promised_next += 2
+            else:
+                ops.append({'op': 'q', 'c': 0, 'what': rng.choice(['open_in', 'open_out'])})
+        r = replay(ops, model)
+        progs += 1
+        nops += len(ops)
+        if model is not None:
+            for idx, (op, ol, ml, obs) in enumerate(r.log):
+                if ml is not None and obs is not None and not r.unmodelled_at(idx) and L.project('C22', ol) != L.project('C22', ml):
+                    mism.append({'seed': seed, 'k': 'push-%d' % k, 'idx': idx, 'ops': ops[:idx + 1]})
+                    break
+        fs = oracle_C22(r)
+        if fs:
+            f = min(fs, key=lambda x: x['idx'])
+            fails.append({'seed': seed, 'k': 'push-%d' % k, 'failure': f, 'ops': ops[:f['idx'] + 1]})
+    return {'failures': fails, 'mismatches': mism, 'coverage': {'push_pressure_programs': progs, 'push_pressure_ops': nops}}
